@@ -3,6 +3,7 @@
 Programs use the tree format of macrolang.py restricted to the fragment the engine Model covers:
   ['word', w] ['group', body, 'brace'] ['def', global, name, nparams, None, body, how] ['call', name, None, [args], how]
   ['param', k] ['param2', k] ['hash'] ['cond', ['true']|['false']|['num', ['lit', a, 'plain'], rel, ['lit', b, 'plain']], thn, els|None]
+  ['case', ['lit', z, 'plain'], [branches], els|None]
 Two printing styles:
   'ml' : the names of macrolang.py (\\zq<base-26>, W<base-26>), calls without arguments followed by {} or a blank
   'f'  : exactly Spec/MacroPrint.v (binary names over the letters a/b, calls without arguments followed by a blank);
@@ -10,7 +11,7 @@ Two printing styles:
 """
 import macrolang as ML
 
-PRIMS = ['bgroup', 'egroup', 'def', 'gdef', 'relax', 'else', 'fi', 'iftrue', 'iffalse', 'ifnum']
+PRIMS = ['bgroup', 'egroup', 'def', 'gdef', 'relax', 'else', 'fi', 'iftrue', 'iffalse', 'ifnum', 'ifcase']
 
 
 # ---- names of Spec/MacroPrint.v -------------------------------------------------------------------
@@ -102,6 +103,11 @@ class Pr:
             if n[3] is not None:
                 s += '\\else ' + self.nodes(n[3])
             return s + '\\fi '
+        if k == 'case':
+            s = '\\ifcase %d\\relax ' % n[1][1] + '\\or '.join(self.nodes(b) for b in n[2])
+            if n[3] is not None:
+                s += '\\else ' + self.nodes(n[3])
+            return s + '\\fi '
         raise ValueError(n)
 
 
@@ -182,14 +188,17 @@ def gen_prog(rng, f1_only=False, max_params=3, delims=True, allow_nested=True):
             elif depth > 0 and r < 0.8:
                 t = test()
                 thn = content(depth - 1, params, ids, n=rng.randint(0, 2), allow_def=False, simple_args=simple_args)
-                if t[0] == 'num' and rng.random() < 0.3:
-                    # other ways to end the second number.  A blank is used only in front of a word: the number reader looks ahead
-                    # with the expanding iterator even after the blank, so a following \\fi / \\else / \\if.. / macro / brace is
-                    # executed before the comparison (known root cause C04-number-lookahead; `\\ifnum 1<0 \\fi x` loses x)
-                    t.append(' ' if (thn and thn[0][0] == 'word' and rng.random() < 0.6) else ' \\relax ')
+                if t[0] == 'num' and rng.random() < 0.45:
+                    # other ways to end the second number: a blank (in front of anything: \\fi, \\else, a call, a brace, a word - since
+                    # fix c654904 readInteger only peeks at the next token) or a blank followed by \\relax
+                    t.append(rng.choice([' ', ' ', ' \\relax ']))
                 out.append(['cond', t, thn,
                             content(depth - 1, params, ids, n=rng.randint(0, 2), allow_def=False, simple_args=simple_args)
                             if rng.random() < 0.5 else None])
+            elif depth > 0 and not f1_only and r < 0.86:
+                sub = lambda: content(depth - 1, params, ids, n=rng.randint(0, 2), allow_def=False, simple_args=simple_args)
+                out.append(['case', ['lit', rng.choice([0, 0, 1, 1, 2, 3, 7]), 'plain'], [sub() for _ in range(rng.randint(1, 3))],
+                            sub() if rng.random() < 0.5 else None])
             else:
                 out.append(word())
         return out
@@ -294,6 +303,10 @@ def _test_ok(t):
     return t[0] == 'num' and t[1][0] == 'lit' and t[3][0] == 'lit' and t[1][1] >= 0 and t[3][1] >= 0
 
 
+def _case_head(n):
+    return n[1][0] == 'lit' and n[1][1] >= 0 and len(n[2]) >= 1
+
+
 def _fa(n):
     """Spec/MacroPrint.fa_node: argument text"""
     k = n[0]
@@ -307,6 +320,8 @@ def _fa(n):
         return n[2] is None and all(all(_fa(x) for x in a) for a in n[3])
     if k == 'cond':
         return _test_ok(n[1]) and all(_fa(x) for x in n[2]) and (n[3] is None or all(_fa(x) for x in n[3]))
+    if k == 'case':
+        return _case_head(n) and all(all(_fa(x) for x in b) for b in n[2]) and (n[3] is None or all(_fa(x) for x in n[3]))
     return False
 
 
@@ -325,6 +340,8 @@ def _fb(np, n, d):
         return n[2] is None and all(d > 0 and all(_fb(np, x, d - 1) for x in a) for a in n[3])
     if k == 'cond':
         return _test_ok(n[1]) and d > 0 and all(_fb(np, x, d - 1) for x in n[2]) and (n[3] is None or all(_fb(np, x, d - 1) for x in n[3]))
+    if k == 'case':
+        return _case_head(n) and d > 0 and all(all(_fb(np, x, d - 1) for x in b) for b in n[2]) and (n[3] is None or all(_fb(np, x, d - 1) for x in n[3]))
     return False
 
 
@@ -340,6 +357,8 @@ def _f2(n):
         return n[2] is None and all(all(_fa(x) for x in a) for a in n[3])
     if k == 'cond':
         return _test_ok(n[1]) and all(_f2(x) for x in n[2]) and (n[3] is None or all(_f2(x) for x in n[3]))
+    if k == 'case':
+        return _case_head(n) and all(all(_f2(x) for x in b) for b in n[2]) and (n[3] is None or all(_f2(x) for x in n[3]))
     return False
 
 
@@ -356,7 +375,7 @@ def T(c, s):
 
 SOUP = [T(11, 'a'), T(11, 'b'), T(10, ' '), T(1, '{'), T(2, '}'), T(6, '#'), T(12, '1'), T(12, '2'), T(12, '<'), T(12, '='), T(12, '>'),
         T(12, '-'), T(12, '+'), T(0, 'def'), T(0, 'gdef'), T(0, 'zqa'), T(0, 'zqb'), T(0, 'iftrue'), T(0, 'iffalse'), T(0, 'ifnum'),
-        T(0, 'else'), T(0, 'fi'), T(0, 'relax')]
+        T(0, 'else'), T(0, 'fi'), T(0, 'relax'), T(0, 'ifcase'), T(0, 'or')]
 SMALL = [T(11, 'a'), T(10, ' '), T(1, '{'), T(2, '}'), T(6, '#'), T(12, '1'), T(12, '<'), T(0, 'def'), T(0, 'zqa'), T(0, 'iftrue'),
          T(0, 'ifnum'), T(0, 'else'), T(0, 'fi'), T(0, 'relax')]
 
@@ -379,6 +398,12 @@ def gen_soup(rng):
             # what follows the second number is looked at (expanded) by the number reader, also after the optional blank
             pre += [T(10, ' ')] * rng.choice([0, 1, 1, 1]) + rng.choice([[T(0, 'fi')], [T(0, 'else')], [T(1, '{')], [T(2, '}')], [T(0, 'zqa')], [T(0, 'iftrue')],
                                                                  [T(0, 'relax')], [T(0, 'def'), T(0, 'zqb'), T(1, '{'), T(11, 'a'), T(2, '}')]])
+    elif r < 0.9:
+        # \\ifcase <number> followed by text with \\or / \\else / \\fi sprinkled in
+        pre = [T(0, 'ifcase')] + [rng.choice([T(12, '0'), T(12, '1'), T(12, '2'), T(12, '3'), T(12, '-'), T(10, ' ')]) for _ in range(rng.randint(0, 2))] + \
+              rng.choice([[T(0, 'relax')], [T(10, ' ')], []])
+        alpha = [T(11, 'a'), T(11, 'b'), T(0, 'or'), T(0, 'or'), T(0, 'else'), T(0, 'fi'), T(0, 'iftrue'), T(1, '{'), T(2, '}'), T(0, 'zqa')]
+        pre += [rng.choice(alpha) for _ in range(rng.randint(0, 8))]
     return pre + [rng.choice(SOUP) for _ in range(rng.randint(0, 9))]
 
 
